@@ -1,4 +1,4 @@
-SPECIFICATION FairSpec
+SPECIFICATION Spec
 CONSTANTS
   MaxOut = 2
   MaxIn = 2
@@ -11,5 +11,5 @@ CONSTANTS
   ExitCodes = {0, 3}
   EchoAssumed = TRUE
 INVARIANTS TypeOK PassThroughOut PassThroughIn PtrClearedOnEveryExit NoStuckFlags PromptOnlyInTransfer ExitPassed LastWordsDelivered
-PROPERTY Live
+
 CHECK_DEADLOCK FALSE
